@@ -403,17 +403,23 @@ pub proof fn lemma_lenpref_prefix_free(x: Seq<u8>, y: Seq<u8>, ta: Seq<u8>, tb: 
     lemma_fixed_split(x, y, ta, tb);
 }
 
-/// Rust invariant (trusted): a string has at most isize::MAX bytes
+/// Rust invariant (trusted): an allocated string has at most isize::MAX bytes -- stated for VALUES of the string types
+/// (an arbitrary Seq<char> has no such bound)
 #[verifier::external_body]
-pub broadcast proof fn axiom_utf8_len_bound(c: Seq<char>)
-    ensures #[trigger] utf8(c).len() <= 0x7FFF_FFFF_FFFF_FFFF
+pub proof fn axiom_str_len_bound(s: &str)
+    ensures utf8(s@).len() <= 0x7FFF_FFFF_FFFF_FFFF
+{
+}
+#[verifier::external_body]
+pub proof fn axiom_string_len_bound(s: &String)
+    ensures utf8(s@).len() <= 0x7FFF_FFFF_FFFF_FFFF
 {
 }
 
 //@ impl crates/stable_hash/src/lib.rs :: impl StableHash for str
 //@ extra
     proof fn prefix_free(a: &Self, b: &Self, ta: Seq<u8>, tb: Seq<u8>) {
-        broadcast use axiom_utf8_len_bound;
+        axiom_str_len_bound(a); axiom_str_len_bound(b);
         lemma_lenpref_prefix_free(utf8(a@), utf8(b@), ta, tb);
     }
 //@ member stable_hash
@@ -421,7 +427,7 @@ pub broadcast proof fn axiom_utf8_len_bound(c: Seq<char>)
 //@ impl crates/stable_hash/src/lib.rs :: impl StableHash for String
 //@ extra
     proof fn prefix_free(a: &Self, b: &Self, ta: Seq<u8>, tb: Seq<u8>) {
-        broadcast use axiom_utf8_len_bound;
+        axiom_string_len_bound(a); axiom_string_len_bound(b);
         lemma_lenpref_prefix_free(utf8(a@), utf8(b@), ta, tb);
     }
 //@ member stable_hash
